@@ -32,7 +32,20 @@ def gen_case(rng, tier, i):
     from vlib.proggen import gen_program
     from vlib.refdevs import Ref, tnum
     clock = ["float", "int", "duration"][i % 3]
-    if i < (3 if tier == "quick" else 12):
+    nre = 3 if tier == "quick" else 12
+    if nre <= i < nre + 18:
+        # a run command issued from a handler WITHOUT a stop first is refused - and must leave the run in progress alone
+        # (its bound and whether the bound is inclusive)
+        j = i - nre
+        clk = ["float", "int", "duration"][j % 3]
+        lit = (lambda v: [float(v), "s"]) if clk == "duration" else (lambda v: int(v) if clk == "int" else float(v))
+        outer = ["run_up_to_including", "run_up_to", "start"][(j // 3) % 3]
+        inner = [x for x in ("run_up_to", "run_up_to_including", "start", "step") if x != outer][(j // 9) % 3]
+        prog = {"clock": clk, "rep": {"start": lit(0), "warmup": lit(0), "length": lit(10)},
+                "init": [["abs", lit(t), 5, f"a{t}"] for t in range(1, 11)] + [["abs", lit(5), 3, "a5b"]],
+                "handlers": {"a2": [["refused_inside", inner, lit(7)]]}}
+        return {"fam": "refuse", "prog": prog, "outer": outer, "inner": inner, "bound": 5}
+    if i < nre:
         # a handler ends the current run and re-issues it with a nearer bound: stop(); run_up_to(t) from inside the run
         # (each of these cases costs the library's 1 s self-wait of stop() on the run thread)
         lit = (lambda v: [float(v), "s"]) if clock == "duration" else (lambda v: int(v) if clock == "int" else float(v))
@@ -150,11 +163,48 @@ def _rebound(case, ctx):
         h.cleanup()
 
 
+def _refuse(case, ctx):
+    from vlib.simharness import Harness
+    prog = case["prog"]
+    h = Harness(prog)
+    res = {}
+
+    def on_action(model, a, parent):
+        res["inner"] = h.cmd(a[1], a[2]) if a[1].startswith("run_up_to") else h.cmd(a[1])
+    h.on_action = on_action
+    where = {"clock": prog["clock"], "outer": case["outer"], "inner_from_handler": case["inner"]}
+    lit5 = prog["init"][4][1]
+    try:
+        if h.cmd("initialize") != "ok":
+            ctx.viol("initialize-raises", where)
+            return
+        out = h.cmd(case["outer"], lit5) if case["outer"] != "start" else h.cmd("start")
+        if out != "ok" or not h.wait_quiescent(30):
+            ctx.viol("hang:refuse", {**where, "outcome": out, "snapshot": h.snapshot()})
+            return
+        ctx.count("run_commands_refused_inside_a_run")
+        if res.get("inner") != "DSOLError":
+            ctx.viol(f"run-command-inside-a-run-not-refused:{res.get('inner')}", where)
+            return
+        times = [c for _, c in h.trace()]
+        want = {"run_up_to_including": [1, 2, 3, 4, 5, 5], "run_up_to": [1, 2, 3, 4], "start": [1, 2, 3, 4, 5, 5, 6, 7, 8, 9, 10]}[case["outer"]]
+        snap = h.snapshot()
+        want_clock = 10 if case["outer"] == "start" else 5
+        if times != want or snap["clock"] != want_clock:
+            ctx.viol("refused-command-changed-state", {**where, "executed_times": times, "expected": want, "snapshot": snap})
+            return
+        ctx.nontrivial = True
+    finally:
+        h.cleanup()
+
+
 def run_case(case, ctx):
     from vlib.simharness import Harness, compare_traces, check_clock_monotone
     from vlib.refdevs import Ref, tnum, WARMUP
     if case.get("fam") == "rebound":
         return _rebound(case, ctx)
+    if case.get("fam") == "refuse":
+        return _refuse(case, ctx)
     prog, sched = case["prog"], case["sched"]
     ref = Ref(prog)
     ref.initialize()
